@@ -63,6 +63,12 @@ pub fn verif_split_with(
     (NetworkController::new(controllers), NetworkProcessor::new(poll, processors))
 }
 
+/// Verification hook: builds an [`Endpoint`] for any id/address pair (stale or fabricated ones too).
+#[cfg(message_io_verif)]
+pub fn verif_endpoint(resource_id: ResourceId, addr: SocketAddr) -> Endpoint {
+    Endpoint::new(resource_id, addr)
+}
+
 #[cfg(message_io_verif)]
 impl NetworkController {
     /// Verification hook: `connect` on the driver mounted under `adapter_id`.
